@@ -208,8 +208,10 @@ func structureOfLine(l string) []string {
 		if len(f) > 1 && known(f[1]) {
 			return []string{f[1]}
 		}
+		return allStructures // e.g. the replay of a supervisor failure
 	}
-	return allStructures
+	fmt.Println("# skipped malformed input line:", strings.Join(f, " "))
+	return nil
 }
 
 // ------------------------------------------------------------------ child plumbing
@@ -224,6 +226,7 @@ type soak struct {
 	tornMsgs map[string]int
 	samples  map[string]map[string]bool // kind -> distinct lines
 	bad      map[string]bool            // anomalous lines (always printed)
+	seen     map[string]int
 	groups   []*group
 	wg       sync.WaitGroup
 	maxSamp  int
@@ -236,7 +239,7 @@ type group struct {
 }
 
 func newSoak(name string) *soak {
-	return &soak{name: name, tornMsgs: map[string]int{}, samples: map[string]map[string]bool{}, bad: map[string]bool{}, maxSamp: 40}
+	return &soak{name: name, tornMsgs: map[string]int{}, samples: map[string]map[string]bool{}, bad: map[string]bool{}, seen: map[string]int{}, maxSamp: 40}
 }
 
 func (s *soak) stopped() bool { return atomic.LoadInt32(&s.stop) != 0 }
@@ -268,7 +271,11 @@ func (s *soak) sample(kind, line string, anomalous bool) {
 		m = map[string]bool{}
 		s.samples[kind] = m
 	}
-	if len(m) < s.maxSamp {
+	// the first half of the budget is taken as it comes, the rest at exponentially thinning
+	// positions, so that late states of a long run are sampled too
+	s.seen[kind]++
+	n := s.seen[kind]
+	if len(m) < s.maxSamp/2 || (len(m) < s.maxSamp && n&(n-1) == 0) {
 		m[line] = true
 	}
 }
@@ -471,8 +478,12 @@ func soakAlerts(secs int) {
 		if k%64 == 0 {
 			time.Sleep(time.Duration(100+r.Intn(400)) * time.Microsecond)
 		}
+		// dwell where the log is reset (len 1000, 1001, then 1 again) so that readers see the boundary
+		if m := k % (maxAlerts + 1); m == maxAlerts || m == 0 || m == 1 || m == 2 {
+			time.Sleep(time.Duration(200+r.Intn(600)) * time.Microsecond)
+		}
 	})
-	s.spawn("reader", 3, func(w int, r *common.Rng) {
+	s.spawn("reader", 2+int(common.Seed()%3), func(w int, r *common.Rng) {
 		before := int(atomic.LoadInt64(&sent))
 		l := cl.Alerts()
 		after := int(atomic.LoadInt64(&sent)) + 1 // the feeder may have handed over one more
@@ -567,71 +578,78 @@ func metricIDs(ms []*api.Metric) []int {
 
 func soakWindow(secs int) {
 	s := newSoak("window")
-	capN := metrics.DefaultWindowCap
-	w1 := metrics.NewWindow(capN)
-	w1.Add(metricN("m", common.PeerN(1), 1, time.Minute))
-	var added int64 = 1
-	s.spawn("writer", 1, func(w int, r *common.Rng) {
-		k := int(atomic.LoadInt64(&added)) + 1
-		w1.Add(metricN("m", common.PeerN(1), k, time.Minute))
-		atomic.StoreInt64(&added, int64(k))
-		if k%32 == 0 {
-			time.Sleep(time.Duration(50+r.Intn(200)) * time.Microsecond)
-		}
-	})
-	lastLatest := make([]int, 8)
-	s.spawn("reader", 3, func(w int, r *common.Rng) {
-		switch r.Intn(3) {
-		case 0:
-			before := int(atomic.LoadInt64(&added))
-			ids := metricIDs(w1.All())
-			after := int(atomic.LoadInt64(&added)) + 1
-			sorted := descSorted(ids)
-			newest := 0
-			if len(sorted) > 0 {
-				newest = sorted[0]
+	defCap := metrics.DefaultWindowCap
+	// boundary capacities next to the default one; which extra one is seed dependent
+	caps := []int{1, 2, defCap, 3 + int(common.Seed()%5)}
+	for ci, capN := range caps {
+		capN := capN
+		w1 := metrics.NewWindow(capN)
+		w1.Add(metricN("m", common.PeerN(1), 1, time.Minute)) // Distribution() needs one entry (see notes)
+		added := new(int64)
+		*added = 1
+		s.spawn(fmt.Sprintf("writer%d", ci), 1, func(w int, r *common.Rng) {
+			k := int(atomic.LoadInt64(added)) + 1
+			w1.Add(metricN("m", common.PeerN(1), k, time.Minute))
+			atomic.StoreInt64(added, int64(k))
+			if k%32 == 0 {
+				time.Sleep(time.Duration(50+r.Intn(200)) * time.Microsecond)
 			}
-			want := newest
-			if want > capN {
-				want = capN
-			}
-			wrongSet := len(ids) != want
-			for i, v := range sorted {
-				if v != newest-i || v == 0 {
-					wrongSet = true
+		})
+		lastLatest := make([]int, 8)
+		s.spawn(fmt.Sprintf("reader%d", ci), 2, func(w int, r *common.Rng) {
+			switch r.Intn(3) {
+			case 0:
+				before := int(atomic.LoadInt64(added))
+				ids := metricIDs(w1.All())
+				after := int(atomic.LoadInt64(added)) + 1
+				sorted := descSorted(ids)
+				newest := 0
+				if len(sorted) > 0 {
+					newest = sorted[0]
+				}
+				want := newest
+				if want > capN {
+					want = capN
+				}
+				wrongSet := len(ids) != want
+				for i, v := range sorted {
+					if v != newest-i || v == 0 {
+						wrongSet = true
+					}
+				}
+				anomalous := wrongSet
+				for i, v := range ids {
+					if v != newest-i {
+						anomalous = true // other order: left to the model comparison
+					}
+				}
+				if newest < before || newest > after {
+					s.tornf("Window.All() newest=%d outside what was added during the call (%d..%d)", newest, before, after)
+				}
+				if wrongSet {
+					s.tornf("Window.All() returned no state of the window: cap=%d n=%d newest=%d", capN, len(ids), newest)
+				}
+				s.sample(fmt.Sprintf("window%d", capN), fmt.Sprintf("C18 window cap=%d => %s", capN, runs(ids)), anomalous)
+			case 1:
+				m, err := w1.Latest()
+				if err != nil || m == nil {
+					s.tornf("Window.Latest() empty on a non-empty window")
+					return
+				}
+				v, _ := strconv.Atoi(m.Value)
+				if v < lastLatest[w] {
+					s.tornf("Window.Latest() went back from %d to %d", lastLatest[w], v)
+				}
+				lastLatest[w] = v
+			default:
+				d := w1.Distribution()
+				if len(d) > capN-1 && capN > 1 {
+					s.tornf("Window.Distribution() returned %d deltas for capacity %d", len(d), capN)
 				}
 			}
-			anomalous := wrongSet
-			for i, v := range ids {
-				if v != newest-i {
-					anomalous = true // other order: left to the model comparison
-				}
-			}
-			if newest < before || newest > after {
-				s.tornf("Window.All() newest=%d outside what was added during the call (%d..%d)", newest, before, after)
-			}
-			if wrongSet {
-				s.tornf("Window.All() returned no state of the window: n=%d newest=%d", len(ids), newest)
-			}
-			s.sample("window", fmt.Sprintf("C18 window cap=%d => %s", capN, runs(ids)), anomalous)
-		case 1:
-			m, err := w1.Latest()
-			if err != nil || m == nil {
-				s.tornf("Window.Latest() empty on a non-empty window")
-				return
-			}
-			v, _ := strconv.Atoi(m.Value)
-			if v < lastLatest[w] {
-				s.tornf("Window.Latest() went back from %d to %d", lastLatest[w], v)
-			}
-			lastLatest[w] = v
-		default:
-			d := w1.Distribution()
-			if len(d) > capN-1 {
-				s.tornf("Window.Distribution() returned %d deltas for capacity %d", len(d), capN)
-			}
-		}
-	})
+		})
+	}
+	capN := defCap
 	// a second window with several writers (as the stores of a busy peer): entries distinct and non-nil
 	w2 := metrics.NewWindow(capN)
 	var seq2 int64
